@@ -109,6 +109,54 @@ func init() {
 	mut("C12", "consume-limit-off-by-one", "internal/fees/manager.go", "\t\tif consumed > l[i] {\n\t\t\treturn false, i\n\t\t}", "\t\tif consumed > l[i]+1 {\n\t\t\treturn false, i\n\t\t}", "block may exceed the unit limit by one")
 	mut("C12", "consume-single-phase", "internal/fees/manager.go", "\t\tif consumed > l[i] {\n\t\t\treturn false, i\n\t\t}\n\t}", "\t\tif consumed > l[i] {\n\t\t\treturn false, i\n\t\t}\n\t\tf.setLastConsumed(i, consumed)\n\t}", "partial consumption on failure")
 
+	mst, mtr := "examples/morpheusvm/storage/storage.go", "examples/morpheusvm/actions/transfer.go"
+	mut("C06", "credit-differs-from-debit", mtr, "storage.AddBalance(ctx, mu, t.To, t.Value)", "storage.AddBalance(ctx, mu, t.To, t.Value+1)", "recipient credited more than the sender paid")
+	mut("C06", "unchecked-subtraction", mst, "\tnbal, err := smath.Sub(bal, amount)", "\tnbal, err := bal-amount, error(nil)", "overdraft wraps around")
+	mut("C06", "stored-balance-differs", mst, "\treturn mu.Insert(ctx, key, binary.BigEndian.AppendUint64(nil, balance))", "\treturn mu.Insert(ctx, key, binary.BigEndian.AppendUint64(nil, balance+1))", "stored balance is not the computed balance")
+	mut("C06", "transfer-declares-recipient-read-only", mtr, "\t\tstring(storage.BalanceKey(t.To)):  state.All,", "\t\tstring(storage.BalanceKey(t.To)):  state.Read,", "recipient key declared without write access")
+	ci := "chainindex/chain_index.go"
+	mut("C19", "genesis-pruned", ci, "c.config.AcceptedBlockWindow == 0 || expiryHeight == 0 || expiryHeight >= height {", "c.config.AcceptedBlockWindow == 0 || expiryHeight >= height {", "genesis can be pruned")
+	mut("C19", "prune-outside-batch", ci, "\t\tbatch.Delete(prefixBlockKey(expiryHeight)),", "\t\tc.db.Delete(prefixBlockKey(expiryHeight)),", "prune not atomic with the new block")
+	mut("C19", "window-zero-prunes", ci, "c.config.AcceptedBlockWindow == 0 || expiryHeight == 0 ||", "expiryHeight == 0 ||", "window 0 no longer means keep everything")
+	sb := "snow/block.go"
+	mut("C18", "queue-before-index", sb, "\tif err := b.vm.inputChainIndex.UpdateLastAccepted(ctx, b.Input); err != nil {\n\t\treturn err\n\t}\n\n\t// If I'm ready, queue the block for processing\n\tif b.vm.ready {\n\t\tb.queueAccept()\n\t} else {", "\tif b.vm.ready {\n\t\tb.queueAccept()\n\t}\n\tif err := b.vm.inputChainIndex.UpdateLastAccepted(ctx, b.Input); err != nil {\n\t\treturn err\n\t}\n\n\t// If I'm ready, queue the block for processing\n\tif !b.vm.ready {", "block processed before it is persisted")
+	mut("C20", "accept-unverified-allowed", sb, "\tif b.vm.ready && !b.verified {\n\t\treturn errParentFailedVerification\n\t}", "\tif b.vm.ready && !b.verified {\n\t\tb.vm.log.Info(\"accepting unverified block\")\n\t}", "unverified block accepted in normal operation")
+	mut("C20", "accept-keeps-block-pinned", sb, "\tb.vm.verifiedL.Lock()\n\tdelete(b.vm.verifiedBlocks, b.Input.GetID())\n\tb.vm.verifiedL.Unlock()\n\n\tb.vm.setLastAccepted(b)", "\tb.vm.setLastAccepted(b)", "accepted block stays in the processing map")
+	mut("C21", "ready-before-reverification", "snow/statesync.go", "\tif err := v.verifyProcessingBlocks(ctx); err != nil {\n\t\treturn err\n\t}\n\n\tv.ready = true\n", "\tv.ready = true\n\tif err := v.verifyProcessingBlocks(ctx); err != nil {\n\t\treturn err\n\t}\n\n", "VM reports ready although re-verification failed")
+	mut("C21", "tip-not-reprocessed", "snow/statesync.go", "\t\tv.setLastAccepted(updatedLastAccepted)\n", "\t\t_ = updatedLastAccepted\n", "last accepted stays at the unprocessed tip")
+	mut("C21", "unresolved-check-inverted", "snow/health.go", "\tif unresolvedBlocks > 0 {", "\tif unresolvedBlocks < 0 {", "node healthy with unresolved blocks")
+
+	mut("C40", "value-may-exceed-key-chunks", "keys/keys.go", "\treturn valueChunks <= keyChunks", "\treturn valueChunks <= keyChunks+1", "value one chunk larger than declared passes")
+	mut("C40", "chunk-count-truncates", "keys/keys.go", "\traw := valueLen/chunkSize + 1", "\traw := valueLen / chunkSize", "partial chunk not counted")
+	mut("C40", "chunk-count-overflow-unchecked", "keys/keys.go", "\tif raw > int(consts.MaxUint16) {\n\t\treturn 0, false\n\t}\n", "", "huge value wraps the chunk count")
+	mut("C39", "one-direction-only", "state/metadata/state_manager.go", "\t\t\tif bytes.HasPrefix(p, vp) || bytes.HasPrefix(vp, p) {", "\t\t\tif bytes.HasPrefix(p, vp) {", "a later prefix that extends... only one order tested")
+	mut("C39", "fee-prefix-unchecked", "state/metadata/state_manager.go", "\t\tm.HeightPrefix(),\n\t\tm.FeePrefix(),\n\t\tm.TimestampPrefix(),", "\t\tm.HeightPrefix(),\n\t\tm.TimestampPrefix(),", "fee prefix not part of the conflict check")
+	mut("C39", "element-not-remembered-after-first", "state/metadata/state_manager.go", "\t\tverifiedPrefixes = append(verifiedPrefixes, p)", "\t\tif len(verifiedPrefixes) == 0 {\n\t\t\tverifiedPrefixes = append(verifiedPrefixes, p)\n\t\t}", "only the first prefix is compared against")
+	mb := "pubsub/message_buffer.go"
+	mut("C32", "oversize-check-dropped", mb, "\tif l > m.maxSize {", "\tif l > m.maxSize && m.maxSize < 0 {", "oversize message accepted")
+	mut("C32", "flush-after-append", mb, "\tif m.pendingSize+l > m.maxSize {", "\tif m.pendingSize > m.maxSize {", "batch exceeds the limit by one message")
+
+	mut("C27", "genesis-supply-unchecked", "genesis/genesis.go", "\t\tsupply, err = safemath.Add(supply, alloc.Balance)\n\t\tif err != nil {\n\t\t\treturn err\n\t\t}", "\t\tsupply, err = safemath.Add(supply, alloc.Balance)\n\t\tif err != nil {\n\t\t\tsupply = 0\n\t\t}", "total supply may wrap")
+	mut("C27", "genesis-credit-error-ignored", "genesis/genesis.go", "\t\tif err := balanceHandler.AddBalance(ctx, alloc.Address, mu, alloc.Balance); err != nil {\n\t\t\treturn fmt.Errorf(\"%w: addr=%s, bal=%d\", err, alloc.Address, alloc.Balance)\n\t\t}", "\t\tif err := balanceHandler.AddBalance(ctx, alloc.Address, mu, alloc.Balance); err != nil {\n\t\t\t_ = fmt.Errorf(\"%w: addr=%s, bal=%d\", err, alloc.Address, alloc.Balance)\n\t\t}", "allocation silently missing")
+	mp := "internal/mempool/mempool.go"
+	mut("C23", "sponsor-limit-off", mp, "\t\tif m.owned[sender] == m.maxSponsorSize {\n\t\t\tcontinue // do nothing, wait for items to expire\n\t\t}", "\t\tif m.owned[sender] > m.maxSponsorSize {\n\t\t\tcontinue // do nothing, wait for items to expire\n\t\t}", "sponsor may hold more than its limit")
+	mut("C23", "size-limit-off", mp, "\t\tif m.queue.Size() == m.maxSize {", "\t\tif m.queue.Size() > m.maxSize {", "mempool may exceed its capacity")
+	mut("C23", "duplicate-admitted", mp, "\t\tif m.eh.Has(itemID) {\n\t\t\t// Don't drop because already exists\n\t\t\tcontinue\n\t\t}", "", "same transaction queued twice")
+	mut("C23", "owned-not-counted", mp, "\t\tm.owned[sender]++\n", "", "sponsor count never grows")
+
+	mut("C34", "format-through-float", "utils/utils.go", "\treturn fmt.Sprintf(\"%d.%0*d\", bal/unit, int(consts.Decimals), bal%unit)", "\treturn fmt.Sprintf(\"%.*f\", int(consts.Decimals), float64(bal)/float64(unit))", "balances above 2^53 do not round-trip")
+	mut("C34", "parse-whole-through-float", "utils/utils.go", "\treturn whole*unit + frac, nil", "\treturn uint64(float64(whole)*float64(unit)) + frac, nil", "whole part loses low digits")
+
+	em := "internal/emap/emap.go"
+	mut("C25", "emap-evicts-boundary", em, "\t\tif b == nil || b.Val >= t {", "\t\tif b == nil || b.Val > t {", "entries expiring exactly at the new minimum are evicted")
+	mut("C25", "emap-times-entry-kept", em, "\t\t// Delete from times map\n\t\tdelete(e.times, b.Val)\n", "", "a later add at the same time appends to a dead bucket")
+	mut("C25", "emap-seen-kept", em, "\t\t\te.seen.Remove(id)\n", "", "evicted IDs stay members")
+	mut("C25", "eheap-evicts-boundary", "internal/eheap/eheap.go", "\t\tif minItem.GetExpiry() < val {", "\t\tif minItem.GetExpiry() <= val {", "items expiring exactly at the minimum are evicted")
+	cl := "internal/validitywindow/client.go"
+	mut("C22", "unlinked-block-emitted", cl, "\t\t\t\tif expectedParentID != block.GetID() {\n\t\t\t\t\tbreak\n\t\t\t\t}\n", "\t\t\t\t_ = expectedParentID\n", "blocks that are not hash-linked are recorded")
+	mut("C22", "parent-pointer-not-advanced", cl, "\t\t\t\texpectedParentID = block.GetParent()\n", "", "every later block is compared with the first parent")
+	mut("C22", "revert-fix-genesis", cl, "if c.lastBlock.GetTimestamp() < minTimestamp.Load() || c.lastBlock.GetHeight() == 0 {\n\t\t\t\tclose(resultChan)", "if c.lastBlock.GetTimestamp() < minTimestamp.Load() {\n\t\t\t\tclose(resultChan)", "loop-top genesis completion removed")
+
 	vw := "internal/validitywindow/validitywindow.go"
 	mut("C10", "expiry-boundary", vw, "case containerTimestamp < executionTimestamp:", "case containerTimestamp <= executionTimestamp:", "expiry equal to block time rejected")
 	mut("C10", "future-boundary", vw, "case containerTimestamp > executionTimestamp+validityWindow:", "case containerTimestamp >= executionTimestamp+validityWindow:", "upper boundary off by one")
